@@ -167,6 +167,27 @@ func runCHSite(r *Run, s *chSite) {
 			inline = func(callee *ssa.Function, depth int) bool { return chain[callee] && depth <= 3 }
 		}
 	}
+	if inline == nil && tag != nil {
+		// helpers that are handed the dispatch value decide on it: they are walked as part of fn
+		given := map[*ssa.Function]bool{}
+		eq := equivLoads(fn, tag)
+		for _, c := range callsIn(fn) {
+			callee := staticCallee(c)
+			if callee == nil || callee.Blocks == nil || callee == fn || len(callee.Blocks) > 60 || pkgOfFunc(callee) != pkgOfFunc(fn) {
+				continue
+			}
+			for _, a := range c.Common().Args {
+				for _, t := range eq {
+					if a == t {
+						given[callee] = true
+					}
+				}
+			}
+		}
+		if len(given) > 0 {
+			inline = func(callee *ssa.Function, depth int) bool { return given[callee] && depth <= 1 }
+		}
+	}
 	var tailInline func(*ssa.Function, int) bool
 	if inline == nil {
 		// tail delegation: a same-package helper whose result is what fn returns is followed, unless the
